@@ -103,6 +103,12 @@ func writeImportFixtures(d string) error {
 		"snip":  "(incsnip) {\n\trespond /inc {args[0]}\n}\n",
 		"site":  "inc.test {\n\timport ok\n}\n",
 		"empty": "",
+		// argument placeholders in imported FILES
+		"args1":   "{args[:]}\nrespond hi\n",
+		"args2":   "respond {args[0]} {args[1:]}\n",
+		"argsite": "{args[0]}.test {\n\t{args[1:]}\n\trespond {args[:1]}\n}\n",
+		"argnest": "import args2 {args[:]}\nimport args1 {args[1:]}\n",
+		"argsnip": "(incsnipargs) {\n\t{args[0:]}\n\theader X-I {args[:1]}\n\t{block}\n}\n",
 	}
 	for n, c := range files {
 		if err := os.WriteFile(filepath.Join(inc, n), []byte(c), 0o644); err != nil {
